@@ -273,12 +273,19 @@ pub fn ls(cache: &Path) -> impl Iterator<Item = Result<Metadata>> {
                     format!("Error getting bucket entries from {}", owned_path.display())
                 })?
                 .into_iter()
+                // A record whose integrity doesn't parse is no entry and, as in
+                // `find`, hides none either: drop it before picking the newest
+                // record of each key.
+                .filter(|se| {
+                    se.integrity
+                        .as_ref()
+                        .map_or(true, |i| i.parse::<Integrity>().is_ok())
+                })
                 .rev()
                 .collect::<HashSet<SerializableMetadata>>()
                 .into_iter()
                 .filter_map(|se| {
                     if let Some(i) = se.integrity {
-                        // Skip entries whose integrity doesn't parse, like `find` does.
                         let integrity = i.parse().ok()?;
                         Some(Metadata {
                             key: se.key,
